@@ -374,6 +374,7 @@ func vpC20GenCase(t *rapid.T) *vpC20Case {
 		}
 	}
 	// redirect plan
+	twin := ""
 	n := rapid.SampledFrom([]int{0, 1, 1, 2, 2, 3, 3, 4, 5, 6, 8, 12, 17, 21}).Draw(t, "nhops")
 	for i := 0; i < n; i++ {
 		var h vpC20Hop
@@ -386,7 +387,19 @@ func vpC20GenCase(t *rapid.T) *vpC20Case {
 		}
 		next := "hop" + strconv.Itoa(i+1)
 		var host string
-		switch rapid.IntRange(0, 9).Draw(t, "hostclass") {
+		hostclass := rapid.IntRange(0, 9).Draw(t, "hostclass")
+		if twin != "" {
+			// second half of a "prefix twin" pair: the foreign host whose name the previous, trusted hop began with
+			host, twin, hostclass = twin, "", -1
+		} else if base := strings.ToLower(vpC20Hostname(c.initHost)); strings.Contains(base, ".") && !strings.HasSuffix(base, ".") && base[0] != '[' && (base[0] < '0' || base[0] > '9') && len(base) >= 6 &&
+			rapid.IntRange(0, 11).Draw(t, "prefixTwin") == 0 {
+			// a trusted subdomain whose first label(s) spell a foreign host of exactly the initial host's length,
+			// followed by a hop to that foreign host (trust must be decided on whole names, hop after hop)
+			f := strings.Repeat("e", len(base)-3) + ".io"
+			host, twin, hostclass = f+"."+base, f, -1
+		}
+		switch hostclass {
+		case -1:
 		case 0, 1, 2:
 			host = rapid.SampledFrom(vpC20TrustedHosts).Draw(t, "thost")
 		case 3, 4, 5, 6:
